@@ -381,11 +381,12 @@ pub fn run_property(prop: &'static dyn Prop, tier: Tier, seed: u64, root: &Path)
     }
 
     // ---- health floors
-    for (label, floor) in prop.health_floors(tier) {
+    for (label, den, floor) in prop.health_floors(tier) {
         let n = *labels.get(label).unwrap_or(&0) as f64;
-        let ratio = if evaluations > 0 { n / evaluations as f64 } else { 0.0 };
+        let d = if den.is_empty() { evaluations as f64 } else { *labels.get(den).unwrap_or(&0) as f64 };
+        let ratio = if d > 0.0 { n / d } else { 0.0 };
         if ratio < floor {
-            infra.push(format!("generator health: label {label} is {ratio:.4} of cases, floor {floor}"));
+            infra.push(format!("generator health: {label}/{} = {ratio:.4}, floor {floor}", if den.is_empty() { "evaluations" } else { den }));
         }
     }
 
